@@ -112,7 +112,18 @@ def render(case):
         if t[0] == "idx":
             if j < len(tiles):
                 a, off = tiles[j][0], tiles[j][1]
-                if len(tiles[j]) > 3 and tiles[j][3]:
+                if len(tiles[j]) > 4 and tiles[j][4]:
+                    # richer index computations: a compare and a select among the index ops, the tile views
+                    # A[i + (i == c ? x : y)]
+                    c_, x_, y_ = tiles[j][4]
+                    B.append(f"  %c{j} = arith.constant {c_} : index")
+                    B.append(f"  %q{j} = arith.cmpi eq, %i, %c{j} : index")
+                    B.append(f"  %ka{j} = arith.constant {x_} : index")
+                    B.append(f"  %kb{j} = arith.constant {y_} : index")
+                    B.append(f"  %s{j} = arith.select %q{j}, %ka{j}, %kb{j} : index")
+                    B.append(f"  %o{j} = arith.addi %i, %s{j} : index")
+                    B.append(f"  %t{j} = memref.subview %A{a}[%o{j}] [1] [1] : {BIG} to {T1}")
+                elif len(tiles[j]) > 3 and tiles[j][3]:
                     # the index computation uses the SSA value that is also the loop's lower bound (a shared %c0)
                     if tiles[j][2]:
                         B.append(f"  %t{j} = memref.subview %A{a}[%lb] [1] [1] : {BIG} to {T1}")
@@ -168,7 +179,7 @@ def shifted(case, m):
     return dict(case, body=body, tiles=[[t[0] + 100 * m] + list(t[1:]) for t in case["tiles"]])
 
 
-_LOCAL = __import__("re").compile(r"%((?:lb|ub|step)[pq]?|i|j|k|u|eub|[tcoz]\d+|e\d+_\d+)\b")
+_LOCAL = __import__("re").compile(r"%((?:lb|ub|step)[pq]?|i|j|k|u|eub|[tcozqs]\d+|k[ab]\d+|e\d+_\d+)\b")
 
 
 def in_func(text, name):
@@ -301,6 +312,8 @@ class Walker:
             return a + b
         if a[0] == "dyn" and b[0] == "dyn":
             return ("dyn", a[1] + b[1])
+        if b[0] == "sel" and a[0] in (None, "iv", "ub"):
+            return ("rich", a, b)
         if a[0] is not None and b[0] is not None:
             return ("opaque", 0)
         base = a[0] if a[0] is not None else b[0]
@@ -354,9 +367,14 @@ class Walker:
             elif isinstance(op, arith.CmpiOp):
                 a, b = env[op.lhs], env[op.rhs]
                 if self.symbolic:
-                    if op.predicate.value.data != 0 or a != (None, 0) or not (isinstance(b, tuple) and b[0] == "rem2"):
+                    if op.predicate.value.data != 0:
                         raise Unrecognised("cmpi of an unexpected shape")
-                    env[op.result] = ("even", b[1])
+                    if a == (None, 0) and isinstance(b, tuple) and b[0] == "rem2":
+                        env[op.result] = ("even", b[1])      # the parity test of PipelineDuplicateBuffers
+                    elif a[0] in (None, "iv", "ub") and b[0] in (None, "iv", "ub"):
+                        env[op.result] = ("eq", a, b)        # a compare among the loop's own index computations
+                    else:
+                        raise Unrecognised("cmpi of an unexpected shape")
                 else:
                     if op.predicate.value.data != 0:
                         raise Unrecognised("cmpi predicate")
@@ -364,8 +382,16 @@ class Walker:
             elif isinstance(op, arith.SelectOp):
                 c, a, b = env[op.cond], env[op.lhs], env[op.rhs]
                 if self.symbolic:
+                    if c[0] == "eq" and a[0] is None and b[0] is None:
+                        # index select of the loop's own index computations: evaluated when the compare is between constants
+                        if c[1][0] is None and c[2][0] is None:
+                            env[op.result] = a if c[1][1] == c[2][1] else b
+                        else:
+                            env[op.result] = ("sel", c, a, b)
+                        continue
                     if not (c[0] == "even" and a[0] == "buf" and b[0] == "buf" and a[1] == b[1] and a[2] == 0 and b[2] == 1):
-                        raise Unrecognised("select of an unexpected shape")
+                        raise Unrecognised("select of an unexpected shape (a buffer selected by something else than the parity "
+                                           "of the iteration)")
                     env[op.result] = ("dup", a[1], c[1])
                 else:
                     env[op.result] = a if c else b
@@ -513,7 +539,22 @@ def _mexpr(e, off=0):
     return [k, -c + off]
 
 
-def _mopnd(v):
+def rich_map(case):
+    """array id -> (c, x, y) for the tiles that view A[i + (i == c ? x : y)] (each on an array of its own)"""
+    return {t[0]: tuple(t[4]) for t in case["tiles"] if len(t) > 4 and t[4]}
+
+
+def rich_desc(e, cxy):
+    """index expression of such a tile on iteration expression e = [base, offset], in the vocabulary of the IR reader"""
+    c, x, y = cxy
+    if e[0] is None:
+        return [None, e[1] + (x if e[1] == c else y)]
+    return ["rich", e, ["sel", ["eq", e, [None, c]], [None, x], [None, y]]]
+
+
+def _mopnd(v, rich=None):
+    if v[0] == "tile" and rich and v[1] in rich:
+        return ["tile", v[1], rich_desc(_mexpr(v[4]), rich[v[1]])]
     if v[0] == "tile":
         return ["tile", v[1], [None, v[2]] if v[3] else _mexpr(v[4], v[2])]
     if v[0] == "dup":
@@ -521,8 +562,8 @@ def _mopnd(v):
     return [v[0], v[1]]
 
 
-def _mslot(s):
-    return [[tag, [_mopnd(v) for v in ins], [_mopnd(v) for v in outs]] for tag, ins, outs in s]
+def _mslot(s, rich=None):
+    return [[tag, [_mopnd(v, rich) for v in ins], [_mopnd(v, rich) for v in outs]] for tag, ins, outs in s]
 
 
 def original_structure(case):
@@ -533,6 +574,8 @@ def original_structure(case):
     def o(v):
         if v[0] == "t":
             a, off, inv = tile_entry(case, v[1])
+            if a in rich_map(case):
+                return ["tile", a, rich_desc(["iv", 0], rich_map(case)[a])]
             return ["tile", a, [None, off] if inv else ["iv", off]]
         return [{"b": "alloc", "x": "ext"}[v[0]], v[1]]
     for t in case["body"]:
@@ -768,6 +811,17 @@ def nest_case(rng):
     return dict(c, kind="nest", nest=dims)
 
 
+def rich_case(rng, S, N):
+    """richer index computations in the loop body: compares and selects among the index ops (several derived indices); one or
+    two of the used tiles view A[i + (i == c ? x : y)] of an array of their own"""
+    c = chain_case(rng, S, N, noise=rng.random() < 0.4)
+    used = sorted({v[1] for t in c["body"] if t[0] == "op" for v in t[3] + t[4] if v[0] == "t"})
+    for j in rng.sample(used, min(len(used), rng.choice([1, 1, 2]))):
+        y = rng.choice([0, 0, 1, 3])
+        c["tiles"][j] = [40 + j, 0, False, False, [rng.choice([0, 0, 1, 2, max(N - 1, 0)]), y + rng.choice([100, 100, 50, 0]), y]]
+    return dict(c, kind="richidx")
+
+
 def skip_case(rng, S, N):
     """an intermediate buffer produced in stage j and consumed ONLY in stage j+2 (stage j+1 does not touch it): two copies do
     not suffice for that distance; refusing the loop (NotImplementedError) is fine"""
@@ -867,7 +921,8 @@ class C15(Prop):
     assumptions = [
         "stage ops read exactly their inputs and overwrite exactly their outputs (copy: destination := source; "
         "kernel: outputs := f(inputs)); distinct allocations / arrays / external buffers do not alias",
-        "index ops are pure functions of the loop index (here: subviews A[i + off] and loop-invariant subviews A[off])",
+        "index ops are pure functions of the loop index (here: subviews A[i + off], loop-invariant subviews A[off], and subviews "
+        "A[i + (i == c ? x : y)] computed with arith.cmpi / arith.select among the index ops)",
         "the input loop itself is race-free between barriers (otherwise 'the sequential loop' has no single meaning)",
     ]
     rule = ("modules with 1..3 loops; loops with 1..5 stages of copies/kernels, trip counts 0..8, lb/step/ub constant or run-time values (opaque or computed, every "
@@ -885,10 +940,13 @@ class C15(Prop):
             yield multi_case(r0)
         for _ in range(12 if tier == "quick" else 150):
             yield nest_case(r0)
+        for _ in range(10 if tier == "quick" else 120):
+            S2 = r0.choice([2, 2, 3, 4])
+            yield rich_case(r0, S2, r0.randrange(3, 9) if r0.random() < 0.85 else r0.randrange(0, 9))
         for _ in range(4 if tier == "quick" else 40):
             S3 = r0.choice([3, 3, 4, 5])
             yield skip_case(r0, S3, r0.randrange(S3 + 1, 9))
-        n = 240 if tier == "quick" else 6000
+        n = 230 if tier == "quick" else 6000
         for _ in range(n):
             r = random.Random(rng.getrandbits(48))
             S = r.choice([2, 2, 3, 3, 3, 4, 4, 1, 5])
@@ -1010,7 +1068,8 @@ class C15(Prop):
                 or (wf["oneWriterStage"] and wf["tilesAligned"] and not wf["safe"])):
             return {"model_error": "the model's output violates the side conditions its theorems take as established by the pass",
                     "wf": p["wf"]}
-        body = [_mslot(p["body"])]
+        rich = rich_map(case)
+        body = [_mslot(p["body"], rich)]
         # trailing tokens stay in the loop behind the pipeline's barrier
         cur = []
         tiles = case["tiles"]
@@ -1019,6 +1078,8 @@ class C15(Prop):
         def o(v):
             if v[0] == "t":
                 a_, off, inv = tile_entry(case, v[1])
+                if a_ in rich:
+                    return ["tile", a_, rich_desc(["iv", 0], rich[a_])]
                 return ["tile", a_, [None, off] if inv else ["iv", off]]
             return [{"b": "alloc", "x": "ext"}[v[0]], v[1]]
         for t in p["trailing"]:
@@ -1030,8 +1091,8 @@ class C15(Prop):
                 cur.append([t, [o(x) for x in op[3]], [o(x) for x in op[4]]])
         if cur:
             return {"pipelined": {"unclosed_body": True, "prologue": len(p["prologue"])}}
-        return {"pipelined": {"prologue": [_mslot(s) for s in p["prologue"]], "lb": [None, p["lb"]], "step": [None, 1],
-                              "body": body, "epilogue": [_mslot(s) for s in p["epilogue"]]}}
+        return {"pipelined": {"prologue": [_mslot(s, rich) for s in p["prologue"]], "lb": [None, p["lb"]], "step": [None, 1],
+                              "body": body, "epilogue": [_mslot(s, rich) for s in p["epilogue"]]}}
 
     def compare(self, case, impl_out, model_out):
         i = dict(impl_out) if isinstance(impl_out, dict) else impl_out
